@@ -47,6 +47,24 @@ theorem c14_typed_limit_hit (env : Env) (hl : env.cfg.limitOff = false) (f t : N
     deTyped env (f + 1) t s rest pos = .err .RecursionLimitExceeded (p + 1) :=
   typed_limit_hit env hl f t ht s rest pos b r p hs ho
 
+/-- **C14 (typed targets, what consumes depth).** The wrappers that are not containers hand the depth on unchanged — a newtype
+    struct (`visit_newtype_struct(self)`) and `Some` (`visit_some(self)`) —, and the payload of the `{"V": payload}` form of an
+    enum is read with one more container open than the enum itself (the `{` passed `check_recursion!`): a newtype payload
+    directly at `t + 1`, tuple and struct payloads through `deserialize_seq` / `deserialize_struct` at `t + 1`, which open
+    container `t + 2` behind their own check. -/
+theorem c14_typed_wrapper_depth (env : Env) (f t : Nat) :
+    (∀ s, deTyped env (f + 1) t (.newtype s) = deTyped env f t s) ∧
+    (∀ s rest pos b r p, Stream.skipWs rest pos = (b :: r, p) → (b == 0x6e) = false →
+      deTyped env (f + 1) t (.option s) rest pos = (deTyped env f t s (b :: r) p).map .some) ∧
+    (∀ (de : Nat → Schema → Bytes → Nat → TOut) s, dePayload env (t + 1) de (.newtype s) = de (t + 1) s) ∧
+    (∀ (de : Nat → Schema → Bytes → Nat → TOut) ss, dePayload env (t + 1) de (.tuple ss) =
+      deSeq env (t + 1) (fun r p => (tupleLoop env (de (t + 2)) ss true [] r p).map .seq)) ∧
+    (∀ (de : Nat → Schema → Bytes → Nat → TOut) fs, dePayload env (t + 1) de (.struct_ fs) = deStruct env (t + 1) de fs false) := by
+  refine ⟨fun s => deTyped_newtype env f t s, ?_, fun _ _ => rfl, fun _ _ => rfl, fun _ _ => rfl⟩
+  intro s rest pos b r p hs hb
+  rw [deTyped_option]
+  simp only [hs, hb, Bool.false_eq_true, if_false]
+
 theorem seqTower_add (m n : Nat) (s : Schema) : seqTower (m + n) s = seqTower m (seqTower n s) := by
   induction m with
   | zero => simp [seqTower]
